@@ -111,21 +111,24 @@ fn bin_one(op: Op, a: &NV, b: &NV) -> Res {
                 if fits(p + q) {
                     Res::A(vec![NV::I((p + q) as i64)])
                 } else {
-                    Res::A(numeric(xf + yf))
+                    // the exact result is outside i64: any Integer would claim a value it is not
+                    Res::A(vec![NV::F(xf + yf)])
                 }
             }
             Op::Sub => {
                 if fits(p - q) {
                     Res::A(vec![NV::I((p - q) as i64)])
                 } else {
-                    Res::A(numeric(xf - yf))
+                    // the exact result is outside i64: any Integer would claim a value it is not
+                    Res::A(vec![NV::F(xf - yf)])
                 }
             }
             Op::Mul => {
                 if fits(p * q) {
                     Res::A(vec![NV::I((p * q) as i64)])
                 } else {
-                    Res::A(numeric(xf * yf))
+                    // the exact result is outside i64: any Integer would claim a value it is not
+                    Res::A(vec![NV::F(xf * yf)])
                 }
             }
             Op::Div => {
